@@ -143,13 +143,18 @@ func (c *BlockCache) Iterate(callback func(*types.Block) bool) {
 	c.lock.Lock()
 	defer c.lock.Unlock()
 
+	kept := c.cache[:0]
 	for _, blocks := range c.cache {
 		for _, v := range blocks.Blocks {
 			if callback(v) {
 				delete(blocks.Blocks, v.Hash())
 			}
 		}
+		if len(blocks.Blocks) > 0 {
+			kept = append(kept, blocks)
+		}
 	}
+	c.cache = kept
 }
 
 // Clear clear blocks of block'Height <= height
